@@ -134,7 +134,7 @@ def run(ck, ctx):
         n_ok = 0
         for c in calls:
             for pname in ("betaE", "alt", "Eshow100PeV", "init_lat", "init_long"):
-                a = c[2].get(pname)
+                a = getattr(c[2], "entry", c[2]).get(pname)      # the argument as passed
                 a = I.res(a, E.st) if a is not None else None
                 ok = a is not None and a.op == "Subscript" and g.same(a.args[1], mask)
                 n_ok += 1
@@ -277,10 +277,11 @@ def run(ck, ctx):
             return
         params = [a.arg for a in dcalls[0][0].node.args.args]
         alt_p = "z_det"
-        same = all(g.same(I.res(dcalls[0][2][p], E.st), I.res(dcalls[1][2][p], E.st)) for p in params if p != alt_p)
+        ent = [getattr(c[2], "entry", c[2]) for c in dcalls]
+        same = all(g.same(I.res(ent[0][p], E.st), I.res(ent[1][p], E.st)) for p in params if p != alt_p)
         ck.ob("R08.2", "both distance evaluations use identical arguments except the altitude", same,
               dcalls[0][3], "CphotAng.run", ", ".join(params))
-        zs = [I.res(c[2][alt_p], E.st) for c in dcalls]
+        zs = [I.res(getattr(c[2], "entry", c[2])[alt_p], E.st) for c in dcalls]
 
         def is_ref(n):
             while n.op == "Call" and n.args[0].op == "Ext" and n.args[0].attr in ("numpy.float32", "numpy.float64") \
